@@ -1,5 +1,6 @@
 """Driver: contracts, loop specs, verification of one function of the real source."""
-import ast, time, z3
+import ast, os, time, z3
+from . import solve as _solve
 from .core import *
 from .symexec import Exec, Frame, Raise, Obligation, Unsupported, index_loops, FuncRef
 from . import source as S
@@ -219,6 +220,12 @@ def discharge_all(report, both=False, rlimit=None):
                     o3 = Obligation(ob.name, [c for c in pc if not _has_quant(c)], z3.BoolVal(False), "cover")
                     r3 = o3.discharge(rlimit, use_cvc5=False); ob.time += o3.time
                     if r3 == "refuted": ok = True; ob.info = {"note": "reachability shown on the quantifier-free part of the path condition only"}; break
+                    if r3 == "unknown" and os.path.exists(_solve.CVC5):
+                        # z3's string solver gives up on some satisfiable path conditions (nested str.replace_all); cvc5 deciding `sat` on the
+                        # quantifier-free part is a model of it, i.e. the outcome is reachable
+                        sv = z3.Solver(); [sv.add(c) for c in o3.pc]
+                        t0 = time.time(); r4 = _solve.cvc5_check(sv); ob.time += time.time() - t0
+                        if r4 == "sat": ok = True; ob.backend = "cvc5"; ob.info = {"note": "reachability shown by cvc5 on the quantifier-free part of the path condition"}; break
                     unk = True
             ob.result = "proved" if ok else ("unknown" if unk else "UNREACHABLE")
         else:
